@@ -258,7 +258,7 @@ func (h *harness) genSession(table string, g *simrt.Stream) []sessOp {
 		case 11:
 			ops = append(ops, sessOp{kind: "cget", dir: []core.Dir{core.Next, core.Next, core.Prev}[g.Choose(3)], n: g.Range(1, 5)})
 		case 12:
-			ops = append(ops, sessOp{kind: []string{"rewind", "crewind", "cclose", "qclose", "readcount", "writecount", "libget"}[g.Choose(7)]})
+			ops = append(ops, sessOp{kind: []string{"rewind", "crewind", "cclose", "qclose", "readcount", "writecount", "libget", "getbad"}[g.Choose(8)]})
 		}
 	}
 	ops = append(ops, sessOp{kind: "end", n: 0})
@@ -481,6 +481,18 @@ func (sd *side) do(o sessOp, table string, bigval string) (res string) {
 			res = fmt.Sprint(sd.tran.WriteCount())
 		case "libget":
 			res = fmt.Sprint(sd.d.LibGet("Foo"), sd.d.Libraries())
+		case "getbad":
+			// an argument that cannot be transmitted (an object that contains itself): the
+			// client has to give up the request it has begun to build
+			args := core.SuObjectOf(core.SuStr(table))
+			args.Set(core.SuStr("k"), args)
+			var row core.Row
+			if sd.tran != nil {
+				row, _, _ = sd.tran.Get(sd.th, args, core.Any)
+			} else {
+				row, _, _ = sd.d.Get(sd.th, args, core.Any)
+			}
+			res = fmt.Sprint(row != nil)
 		}
 	})
 	if err != "" {
@@ -564,6 +576,9 @@ func (h *harness) runC40() {
 		wg.Add(1)
 		s.GoNamed(fmt.Sprintf("session%d", i), func() {
 			defer wg.Done()
+			// successful schema changes of the session's table so far, and their number when
+			// the cursor was opened
+			epoch, curEpoch := 0, 0
 			remote := &side{name: "remote", d: cc.newSession(), th: core.NewThread(nil)}
 			local := &side{name: "local", d: twin.dl, th: core.NewThread(nil)}
 			for n, o := range ops {
@@ -590,11 +605,27 @@ func (h *harness) runC40() {
 				if strings.HasPrefix(r, "error") {
 					h.ri.Count("c40.ops-with-error-result", 1)
 				}
-				if r != l && o.kind == "cget" && r == local.cgetAlt {
+				if o.kind == "getbad" {
+					// what direct access makes of such an argument is not comparable; through
+					// the server it must be refused, and the session must go on working (the
+					// following operations are compared as usual)
+					if !strings.HasPrefix(r, "error") {
+						h.fail("C40/result-differs", "C40/result-differs/getbad", "session %d operation %d: a request whose argument cannot be packed returned %s", i, n, short(r))
+						return
+					}
+					continue
+				}
+				if o.kind == "admin" && r == "ok" {
+					epoch++
+				}
+				if o.kind == "cursor" {
+					curEpoch = epoch
+				}
+				if r != l && o.kind == "cget" && (r == local.cgetAlt || curEpoch < epoch) {
 					// known finding (known_findings.json): the client keeps the header a cursor
 					// had when it was opened, a local cursor takes the header of the transaction
 					// it is read in; they differ after a schema change of the table
-					h.fail("C40/result-differs", "C40/result-differs/cursor-header-after-schema-change", "session %d operation %d (cursor read after the table's columns changed): through the server the rows have the columns the cursor was opened with: %s ; locally they have the current columns: %s", i, n, short(r), short(l))
+					h.fail("C40/result-differs", "C40/result-differs/cursor-header-after-schema-change", "session %d operation %d (cursor read after the table's columns changed): through the server the rows are decoded with the columns the cursor was opened with: %s ; locally with the current columns: %s", i, n, short(r), short(l))
 					return
 				}
 				if r != l && !bothDoomed(r, l) {
